@@ -509,3 +509,83 @@ def universe_tla():
             "(* The same rule universe is used by the code -> spec driver of C03 (harness/props/c03). *)\n"
             f"Universe == <<\n  {body}\n>>\n"
             "=============================================================================\n")
+
+
+# ---------------------------------------------------------------------------- C12: alias rules with their own defaults
+def _d(name, v):
+    return {"name": name, "ty": "int" if isinstance(v, int) else "str", "v": str(v)}
+
+
+def alias_groups():
+    """Endpoint groups in which an alias rule carries its OWN defaults (different from what any canonical rule
+    supplies), mixes converted path values with defaults, and sits next to several candidate canonical rules.
+    Each template: (rules, environments for the variables)."""
+    S, I = (lambda n: var("string", n)), (lambda n: var("int", n))
+    T = []
+    # (a) the documented shape: '/' {lang: en}, '/<lang>/', alias '/start.de.html' {lang: de} (+ en / fr aliases)
+    T.append([
+        rule([lit("g")], branch=True, endpoint="idx", defaults=[_d("lang", "en")]),
+        rule([lit("g"), S("lang")], branch=True, endpoint="idx"),
+        rule([lit("start.de.html")], endpoint="idx", defaults=[_d("lang", "de")], alias=True),
+        rule([lit("start.en.html")], endpoint="idx", defaults=[_d("lang", "en")], alias=True),
+    ])
+    # (c) several candidate canonical rules: two defaults rules + the variable rule, aliases for each and for neither
+    T.append([
+        rule([lit("h")], branch=True, endpoint="home", defaults=[_d("lang", "en")]),
+        rule([lit("h"), lit("deutsch")], branch=True, endpoint="home", defaults=[_d("lang", "de")]),
+        rule([lit("h"), S("lang")], branch=True, endpoint="home"),
+        rule([lit("h.de")], endpoint="home", defaults=[_d("lang", "de")], alias=True),
+        rule([lit("h.fr")], branch=True, endpoint="home", defaults=[_d("lang", "fr")], alias=True),
+    ])
+    # (b) converted path values mixed with defaults
+    T.append([
+        rule([lit("item"), I("id")], endpoint="item", defaults=[_d("lang", "en")]),
+        rule([S("lang"), lit("item"), I("id")], endpoint="item"),
+        rule([lit("old.de"), I("id")], endpoint="item", defaults=[_d("lang", "de")], alias=True),
+        rule([lit("old.en"), I("id")], branch=True, endpoint="item", defaults=[_d("lang", "en")], alias=True),
+    ])
+    # int defaults: '/p/' {pg: 1}, '/p/page/<int:pg>', aliases fixing pg = 1 / pg = 2
+    T.append([
+        rule([lit("p")], branch=True, endpoint="pages", defaults=[_d("pg", 1)]),
+        rule([lit("p"), lit("page"), I("pg")], endpoint="pages"),
+        rule([lit("p-first")], endpoint="pages", defaults=[_d("pg", 1)], alias=True),
+        rule([lit("p-second")], endpoint="pages", defaults=[_d("pg", 2)], alias=True),
+    ])
+    # two arguments: one from the alias path, one from its defaults; two defaults rules of different width
+    T.append([
+        rule([lit("u"), S("name")], endpoint="user", defaults=[_d("tab", "info")]),
+        rule([lit("u"), S("name"), S("tab")], endpoint="user"),
+        rule([lit("profile"), S("name")], endpoint="user", defaults=[_d("tab", "posts")], alias=True),
+        rule([lit("me")], endpoint="user", defaults=[_d("tab", "info"), _d("name", "self")], alias=True),
+    ])
+    return T
+
+
+ALIAS_ENV = {"lang": ["en", "de", "fr", "xx"], "id": ["7", "07", "12"], "pg": ["1", "2", "3", "01"],
+             "name": ["bob", "self"], "tab": ["info", "posts", "x"]}
+
+
+def alias_group_paths(rules, rng, limit):
+    """Every rule string instantiated with every combination of the variable values above, with and without a
+    trailing slash, plus a few doubled-slash and //host forms."""
+    out = []
+    for r in rules:
+        names = [s["name"] for s in r["segs"] if s["k"] == "var"]
+        for combo in itertools.product(*[ALIAS_ENV[n] for n in names]):
+            env = dict(zip(names, combo))
+            p = "/" + "/".join(s["pre"] if s["k"] == "lit" else env[s["name"]] for s in r["segs"])
+            out += [p, p + "/"]
+            if rng.random() < 0.15:
+                out.append("//evil.com" + p)
+            if rng.random() < 0.15 and p.count("/") > 1:
+                out.append(p[::-1].replace("/", "//", 1)[::-1])
+    seen, res = set(), []
+    for p in out:
+        if p not in seen:
+            seen.add(p)
+            res.append(p)
+    # alias URLs first (they are the point), the rest sampled
+    al = [p for p in res if any(p.lstrip("/").startswith(rule_string(r).strip("/").split("/")[0]) for r in rules if r["alias"])]
+    rest = [p for p in res if p not in set(al)]
+    rng.shuffle(rest)
+    return (al + rest)[:limit]
